@@ -35,6 +35,8 @@ func init() {
 
 		"time.Now":           stubTimeNow,
 		"time.Sleep":         stubTimeSleep,
+		"internal/stringslite.Clone": stubIdentity1,
+		"strings.Clone":              stubIdentity1,
 		"(*sync.Pool).Get":   stubPoolGet,
 		"(*sync.Pool).Put":   stubPoolPut,
 		"(time.Time).Format": stubOpaqueStr,
@@ -671,6 +673,9 @@ func stubPoolGet(ex *Exec, fn *ssa.Function, args []Value) []Value {
 	}
 	return []Value{IfaceV{}}
 }
+
+// strings.Clone: strings are immutable values in the executor
+func stubIdentity1(ex *Exec, fn *ssa.Function, args []Value) []Value { return []Value{args[0]} }
 
 func stubPoolPut(ex *Exec, fn *ssa.Function, args []Value) []Value {
 	o, off := poolItems(ex, args[0])
